@@ -440,6 +440,9 @@ def check(ctx):
             r1.ok("collect_referenced_types_from_structure(%s) in %s" % (k, seen2[k]))
         else:
             r1.bad(V(r1.id, "TypeCollector", "uncollected-structure:%s" % k, "referenced types are never collected from %s (%s)" % (what, k)))
+    # the payload type of every emit is a root: recording an emit must not depend on what was recorded before (shared with C12-D3)
+    from c12 import check_every_emit_recorded
+    check_every_emit_recorded(P, r1)
     r1.require_floor(10, "seed sites")
     rules.append(r1)
 
